@@ -45,6 +45,8 @@ def gen_case(rng, tier):
     mods = [m[0] for m in c["mods"]]
     c["table_mods"] = mods
     c["patients"] = gen_mpatients(rng, mods, lnls)
+    if c["flags"]["use_central"] and c["patients"] and rng.random() < 0.7:
+        c["patients"][0]["ext"] = c["patients"][0]["central"] = True      # a central tumour in most central-model cohorts
     c["t"] = list(c["dists"])[0]
     c["boundary"] = rng.choice([None, None, "midext0", "midext1", "mixing0", "mixing1"])
     c["n_updates"] = rng.choice([0, 1, 2])
